@@ -377,7 +377,7 @@ func init() {
 		ID:      "C15",
 		History: true,
 		Run:     runC15,
-		Rule:    "seeded cases: a source skeleton (nested lists/vectors/maps/quoted data) with 0-6 named placeholders in code position, quoted data, collections and map values, repeated or missing, decoy $names inside strings, raw strings and comments, preamble-looking comment lines at the top of the source itself, rendered with comments/newlines between tokens; values from a family stressing the transport (multi-line JSON text printed in raw form, strings that look like preamble lines, quotes/backslashes/semicolons/brackets/raw quotes, other placeholder names, nested data, hostile Unicode); the generator substitutes on its own AST; both Read_str(src, values) and READWithPreamble(AddPreamble(src, values)) must yield exactly that AST (independent structural comparison); distinct = (skeleton shape, hardest value class transported)",
+		Rule:    "seeded cases: a source skeleton (nested lists/vectors/maps/quoted data) with 0-6 named placeholders in code position, quoted data, collections and map values, repeated or missing, decoy $names inside strings, raw strings and comments, preamble-looking comment lines at the top of the source itself, rendered with comments/newlines between tokens; values from a family stressing the transport (multi-line JSON text printed in raw form, strings that look like preamble lines, quotes/backslashes/semicolons/brackets/raw quotes, other placeholder names, nested data, hostile Unicode); the generator substitutes on its own AST; both Read_str(src, values) and READWithPreamble(AddPreamble(src, values)) must yield exactly that AST (independent structural comparison); distinct = (skeleton shape, hardest value class transported); a placeholder without a value often reuses a name that an earlier case of the same process gave a value to (state must not survive between reader calls)",
 		Assume:  []string{"names range over [A-Za-z0-9_-] (the preamble grammar); $MODULE is reserved", "values contain no symbol/keyword/string token starting with $ (the reader defines such tokens as placeholders)"},
 		Finish: func(m *fw.Merged) {
 			m.Floor("transports", 5000)
